@@ -388,6 +388,36 @@ def r3(ctx, fs):
     ctx.instance(rid, [f.id, 'inapplicable'], {'handler_posts': [show_clause(c) for c in handler]})
     if not okh:
         ctx.finding(rid, f.id, 'inapplicable', 'solver::apply_resolver: an inapplicable resolver must be forbidden with the unit clause {!rho}', loc=f.loc)
+    # .. on every path through the handler, and a refused clause (rho already true: a landmark) makes the problem unsolvable: the first decision of the handler is the answer of
+    # new_clause({!rho}) itself - a test in front of it (or beside it, in a conjunction) leaves a half-applied rule body in the plan whenever it skips the clause
+    catches = [n for n in f.nodes() if n.get('k') == 'CXXCatchStmt']
+    if len(catches) != 1:
+        raise AnalysisBroken('%s: expected one catch handler, found %d' % (f.id, len(catches)))
+    hbody = [c for c in (catches[0].get('c') or ()) if c.get('k') == 'CompoundStmt']
+    if not hbody:
+        raise AnalysisBroken('%s: handler without a body' % f.id)
+
+    def is_nc(t):
+        return isinstance(t, tuple) and t[:2] == ('mcall', 'smt::sat_core::new_clause')
+    okd, n_paths, why = True, 0, ''
+    for p in enum_paths(hbody[0]):
+        n_paths += 1
+        decs = [(node, pol) for kind, node, pol in p.conds if kind == 'if']
+        if not decs:
+            okd, why = False, 'a path through the handler takes no decision on the answer of new_clause'
+            continue
+        first = canon(decs[0][0], env)
+        if not is_nc(first):
+            okd, why = False, 'the first decision of the handler is %s, not the answer of new_clause({!rho})' % show(first)
+            continue
+        if decs[0][1] is False and p.end != 'throw':
+            okd, why = False, 'a refused {!rho} does not end in unsolvable_exception'
+    ctx.instance(rid, [f.id, 'inapplicable/paths'], {'handler_paths': n_paths, 'first_decision_is_the_clause': okd})
+    if n_paths < 2:
+        raise AnalysisBroken('%s: the handler has fewer than two paths (clause accepted / refused)' % f.id)
+    if not okd:
+        ctx.finding(rid, f.id, 'inapplicable/paths', 'solver::apply_resolver: when the resolver is inapplicable, {!rho} must be posted unconditionally and its refusal must make the problem unsolvable (%s): '
+                    'otherwise a goal stays active with only part of its rule body in the plan' % why, node=catches[0])
 
 
 def _pos(n):
